@@ -409,7 +409,7 @@ _STORED_ATTRS = ('self.pixel_array', 'self._pixel_array', 'self.PixelData')
 _STORED_CALLS = ('self.get_stored_frame', 'self.get_stored_frames', 'self.get_frame', 'self.get_frames')
 _VIEW_METHODS = ('reshape', 'view', 'squeeze', 'ravel', 'transpose', 'swapaxes', '__getitem__')
 _FRESH_METHODS = ('astype', 'flatten', 'copy', 'tolist', 'max', 'min', 'sum', 'all', 'any', 'item', 'tobytes')
-_FRESH_CALLS = ('np.zeros', 'np.ones', 'np.empty', 'np.eye', 'np.arange', 'np.maximum', 'np.minimum', 'np.isin', 'np.unique',
+_FRESH_CALLS = ('list', 'set', 'sorted', 'dict', 'np.array', 'UID', 'np.zeros', 'np.ones', 'np.empty', 'np.eye', 'np.arange', 'np.maximum', 'np.minimum', 'np.isin', 'np.unique',
                 'np.logical_and', 'np.logical_or', 'np.any', 'np.all', 'np.setxor1d', 'np.array_equal', 'np.nonzero',
                 'np.dtype', 'np.concatenate', 'np.stack', 'np.iinfo', 'np.finfo', 'len', 'max', 'min', 'range', 'int', 'float',
                 'bool', 'tuple', 'isinstance', 'decode_frame', 'apply_lut', 'apply_voi_window', '_get_unsigned_dtype',
@@ -841,10 +841,25 @@ def build_T8k(tree):
             kws = {k.arg: ast.unparse(k.value) for k in c.keywords}
             rows.append((name, 'iterate:remap_channel_indices', kws.get('remap_channel_indices', '?')))
             rows.append((name, 'iterate:channel_indices', kws.get('channel_indices', '?')))
+    drows = []
+    for name in _READ_ENTRIES:
+        ef = find_func(tree, 'Segmentation.' + name)
+        a = ef.args
+        pos = a.posonlyargs + a.args
+        dmap = {x.arg: ast.unparse(dv) for x, dv in zip(pos[len(pos) - len(a.defaults):], a.defaults)}
+        dmap.update({x.arg: ast.unparse(dv) for x, dv in zip(a.kwonlyargs, a.kw_defaults) if dv is not None})
+        for opt in _FORWARDED + ['assert_missing_frames_are_empty']:
+            if opt in dmap:
+                drows.append((name, opt, dmap[opt]))
+            elif opt != 'assert_missing_frames_are_empty':
+                raise Unsupported(f'{name}: option {opt} has no default')
+    t4 = ('/-- the default of every read option of every entry point: (entry point, keyword, default) -/\n'
+          'def optionDefaults : List (String × String × String) :=\n  [' +
+          ',\n   '.join('("%s", "%s", "%s")' % r for r in drows) + ']')
     t3 = ('/-- what every read entry point hands on: (entry point, receiver:parameter, argument expression) -/\n'
           'def forwarding : List (String × String × String) :=\n  [' +
           ',\n   '.join('("%s", "%s", "%s")' % (a, b, c.replace('"', '\\"')) for a, b, c in rows) + ']')
-    return '\n\n'.join([t1, t2, t3]), span_sha(strip_doc(fn.body)) + hashlib.sha256(repr(rows).encode()).hexdigest()[:12]
+    return '\n\n'.join([t1, t2, t3, t4]), span_sha(strip_doc(fn.body)) + hashlib.sha256(repr(rows + drows).encode()).hexdigest()[:12]
 
 
 import hashlib  # noqa: E402
@@ -896,3 +911,47 @@ def build_T8m(tree):
 
 
 TARGETS['T8m'] = {'file': 'seg/sop.py', 'build': build_T8m}
+
+
+
+_ACCESSORS = ['segment_numbers', 'number_of_segments', 'get_segment_numbers', 'get_tracking_ids',
+              'segmented_property_categories', 'segmented_property_types']
+
+
+def build_T8n(tree):
+    """The list-valued accessors of `Segmentation` hand out NEW lists: effect tables of `segment_numbers`, `number_of_segments`,
+    `get_segment_numbers`, `get_tracking_ids`, `segmented_property_categories/types`, each `return e` rendered as an assignment
+    of `e` to a result name.  Theorem `accessors_return_new_values`: no result name may refer to the object's state (a value
+    kept on `self` and handed out could be edited by the caller) and no statement writes to the object."""
+    ids = {'self': 0}
+    rows, rets = [], []
+    cls = find_func(tree, 'Segmentation')
+    for name in _ACCESSORS:
+        fn = [n for n in cls.body if isinstance(n, ast.FunctionDef) and n.name == name]
+        if len(fn) != 1:
+            raise Unsupported(f'accessor {name} not found')
+        fn = fn[0]
+        eff = [(f'{name}.{t}' if t != 'self' else t, ip, k, [f'{name}.{n}' if n != 'self' else n for n in ns])
+               for t, ip, k, ns in _effects_allow_lambda(fn)]
+        rname = f'{name}.<result>'
+        for r in ast.walk(fn):
+            if isinstance(r, ast.Return) and r.value is not None:
+                k, ns = _classify(r.value, ())
+                eff.append((rname, False, k, [f'{name}.{n}' if n != 'self' else n for n in ns]))
+        rows += eff
+        rets.append(rname)
+    t0 = _lean_effects('accessorEffects', rows, 'assignments and returns of the list-valued accessors of `Segmentation`', ids)
+    for n in rets:
+        if n not in ids:
+            ids[n] = len(ids)
+    t1 = '/-- the result names of the accessors -/\ndef accessorResults : List Nat := [' + ', '.join(str(ids[n]) for n in rets) + ']'
+    t2 = '/-- the numbering of the names (index = number) -/\ndef accessorNames : List String :=\n  [' + \
+        ', '.join('"' + n + '"' for n in sorted(ids, key=ids.get)) + ']'
+    return '\n\n'.join([t0, t1, t2]), hashlib.sha256(repr(rows).encode()).hexdigest()
+
+
+def _effects_allow_lambda(fn):
+    return _effects(fn)
+
+
+TARGETS['T8n'] = {'file': 'seg/sop.py', 'build': build_T8n, 'imports': ['HdVerif.Model.Effects']}
